@@ -337,6 +337,7 @@ fn allowed_features() -> gen::problem::Features {
     allowed.clustering = true;
     allowed.recharges = true;
     allowed.time_dependent = true;
+    allowed.long_tour_focus = true;
     allowed
 }
 
